@@ -1,15 +1,40 @@
 import GoImap.Model.ClientConc
 import GoImap.Lemmas.ClientConcTags
 import GoImap.Lemmas.ClientConcOnce
+import GoImap.Lemmas.ClientConcKeep
 /-!
-  C13 — the client is safe for concurrent use. Property theorems about `GoImap.ClientConc`.
+  C13 — the client is safe for concurrent use. Property theorems about `GoImap.ClientConc`
+  (Model/ClientConc.lean: one step per c.mutex / c.encMutex critical section or channel operation,
+  N submitters, the reader, a closer, an observer, the server end of the connection; schedules are
+  lists of thread ids; every theorem below quantifies over ALL schedules and ALL scenarios).
 
-  Status (this header is updated together with the theorems):
-  * counterexamples of the unrepaired behaviours (`Legacy.*`), by `decide`:
-      f21_counterexample, f26_idle_counterexample, f26_reorder_only_counterexample
-  * validated by the oracle only (Spec/ClientConc.lean evaluated on every enforced schedule and on
-    every -race workload): everything else, until the invariants below are proved.
-  * data-race freedom itself is a property of the Go memory model (partial).
+  Proved, for every variant of the model (so in particular for `fixed`, the repaired tree):
+    tags_unique              two registered commands with the same tag are the same command; tags
+                             are between 1 and the counter
+    complete_at_most_once    "never twice": every command is completed at most once, an unregistered
+                             or still queued command not at all; pendingCmds has no duplicates
+    no_completion_lost       "never zero times", conservation form: a registered command is queued,
+                             or exactly one thread holds the instruction that will complete it, or it
+                             has been completed exactly once
+    complete_exactly_once    when every thread has finished and pendingCmds is empty, every registered
+                             command has been completed exactly once
+    guarded_fields           lockset discipline of the model's field-access table
+  Counterexamples of the unrepaired behaviours (`Legacy.*`), by `decide`:
+    f21_counterexample, f21_lockset_counterexample, f26_idle_counterexample,
+    f26_reorder_only_counterexample, f26_enabled_lockset_counterexample
+
+  Partial / not proved (validated by the oracle on every enforced schedule and -race workload):
+    * that pendingCmds is empty once every thread has finished (the hypothesis of
+      complete_exactly_once); the driver checks it on every schedule it replays ("done-but-pending")
+    * no_stuck_closer (Close returns in every schedule): not proved; the Legacy counterexample is
+      f21_counterexample (the closer and the reader are among the blocked threads there); the oracle
+      clause `close-never-returns` judges every run
+    * contreq_fifo for all schedules: not proved; proved only as the counterexample of the
+      unrepaired order (f26_idle_counterexample) and the hang of the naive repair
+      (f26_reorder_only_counterexample); the oracle clause `continuation-request-misrouted` judges
+      every run
+    * data-race freedom itself is a property of the Go memory model: Lean proves the lockset
+      discipline of the table (guarded_fields), the -race workloads support that the table is complete
 -/
 namespace GoImap.C13
 open GoImap.ClientConc
@@ -44,6 +69,25 @@ theorem f26_idle_counterexample :
   decide
 
 
+
+def scReorder : Scenario := { subs := [[.idle]], closes := 0, observer := [], server := [.close] }
+
+/-- the obvious repair of F26 alone (register the IDLE continuation request after beginCommand,
+    closeWithError NOT cancelling the requests still queued) hangs: the server closes after IDLE
+    has been registered; the reader completes it before its continuation request exists; the
+    request is then queued, nobody will ever cancel it, and idle() waits for it forever while
+    holding encMutex. (The repaired code cancels every queued request in closeWithError.) -/
+theorem f26_reorder_only_counterexample :
+    let s := run Legacy.f26reorderOnly (init Legacy.f26reorderOnly scReorder) [4, 4, 4, 1, 0, 0, 0, 0, 0, 0, 0, 4, 4, 4]
+    (stuck Legacy.f26reorderOnly scReorder s && s.enc.isSome && ((s.cmd 0).sent == 1)) = true := by
+  decide
+
+/-- the repaired code gets through on the same schedule -/
+theorem f26_repaired_on_that_schedule :
+    let s := run fixed (init fixed scReorder) [4, 4, 4, 1, 0, 0, 0, 0, 0, 0, 0, 0, 4, 4, 4, 4, 4, 4, 4]
+    (quiescent scReorder s && s.enc.isNone && ((s.cmd 0).sent == 1)) = true := by
+  decide
+
 /-! ### theorems for all schedules -/
 
 /-- tags stay unique: in every reachable state of every variant, two registered commands with the
@@ -76,6 +120,44 @@ example :
     let s := run fixed (init fixed sc) [4, 4, 4, 4, 5, 5, 5, 5, 1, 1, 0, 0, 0, 0, 0, 0, 0, 0, 0, 0, 0, 0, 0, 0, 0, 4, 5, 5]
     ((s.cmd 0).sent, (s.cmd 1).sent, (s.cmd 0).ltag, (s.cmd 1).ltag) = (1, 1, 1, 2) := by
   decide
+
+
+/-- never zero times, part 1 (conservation): at every point of every schedule a registered command
+    is still queued in pendingCmds, or exactly one thread holds the instruction that will send its
+    completion, or its completion has been sent exactly once -/
+theorem no_completion_lost (v : Variant) (sc : Scenario) (sched : List Nat) :
+    let s := run v (init v sc) sched
+    ∀ c, (s.cmd c).registered = true →
+      (c ∈ s.pending ∧ (s.cmd c).sent = 0) ∨
+      ((∃ t, toks c (s.prog t) = 1 ∧ ∀ u, u ≠ t → toks c (s.prog u) = 0) ∧ (s.cmd c).sent = 0) ∨
+      (s.cmd c).sent = 1 := by
+  intro s c hc
+  have hk := (keep_run v sched (init v sc) (shape_init v sc) (keep_init v sc)).1
+  have ho := once_run v sched (init v sc) (once_init v sc)
+  rcases hk c hc with h1 | ⟨t, h2⟩ | h3
+  · exact Or.inl ⟨h1, (ho.pend c h1).1⟩
+  · obtain ⟨a1, a2, a3⟩ := ho.tok c t h2
+    exact Or.inr (Or.inl ⟨⟨t, a2, a3⟩, a1⟩)
+  · have h4 := ho.le c
+    exact Or.inr (Or.inr (Nat.le_antisymm h4 h3))
+
+/-- every thread has run to the end of its program and nothing is queued any more -/
+def Quiescent (s : St) : Prop := (∀ t, s.prog t = []) ∧ s.pending = []
+
+/-- exactly once: when every thread has finished and pendingCmds is empty, every registered command
+    has been completed exactly once. (That pendingCmds IS empty once all threads have finished is
+    validated on every enforced schedule by the oracle, not proved.) -/
+theorem complete_exactly_once (v : Variant) (sc : Scenario) (sched : List Nat) :
+    let s := run v (init v sc) sched
+    Quiescent s → ∀ c, (s.cmd c).registered = true → (s.cmd c).sent = 1 := by
+  intro s hq c hc
+  rcases no_completion_lost v sc sched c hc with h1 | h2 | h3
+  · have : c ∈ s.pending := h1.1
+    rw [hq.2] at this; cases this
+  · obtain ⟨⟨t, ht, _⟩, _⟩ := h2
+    have : toks c (s.prog t) = 1 := ht
+    rw [hq.1 t] at this; cases this
+  · exact h3
 
 /-! ### the lockset discipline of the model's field-access table -/
 
